@@ -135,3 +135,20 @@ def standard_check(pid, args, level, explanation, closure, labels_E, n_quick=300
         else:
             ck.violation(f'ColorPair.make_readable/{have_witness["failed_labels"][0]} (run-time contract)', 'E', {'note': 'deductive obligations discharged but the run-time contract fails: contract/assumption gap'}, have_witness)
     return ck
+
+
+def roundtrip_lemma(ck, tier, formats=('hex', 'rgb', 'hsl', 'rgb_tuple'), force_quick=False):
+    """engine D lemma READ(format_color(c,f)) == CSS(format_color(c,f)) == c on the colour cube (real formatter + parsers)"""
+    from vf import fdx
+    n, fails, stats, exhaustive, wall = fdx.sweep('checks.d_workers', 'roundtrip', 'quick' if force_quick else tier, {'formats': list(formats)})
+    ck.exhaustive.append({'engine': 'D', 'what': 'READ(format_color(c,f)) == c and CSS(format_color(c,f)) == c, real formatter + real parser + reference parser',
+                          'domain': 'all 16,777,216 colours x 4 formats' if exhaustive else 'quick domain (52^3 lattice + greys + channel sweeps + 60k pseudo-random) x 4 formats',
+                          'evaluations': n, 'exhaustive': exhaustive, 'css_rounding_ties': stats.get('ties', 0), 'wall_s': round(wall, 1)})
+    ck.add_obligation('D', 'format_color/round_trip[colours x {hex,rgb,hsl,rgb_tuple}]', 'failed' if fails else 'discharged', 'exhaustive' if exhaustive else 'lattice(bounded)', wall)
+    ck.evaluations += n
+    ck.sample({'engine': 'D', 'case': {'colour': [26, 187, 255], 'format': 'hsl'}, 'checked': 'format -> library parser -> equal; format -> CSS reference parser -> equal'})
+    if fails:
+        f = fails[0]
+        ck.violation('format_color/round_trip', 'D', {'failures_shown': fails[:5], 'n_failures_at_least': len(fails)},
+                     {'call': 'parse_color_to_rgb(format_color(colour, format))', **f}, {'witness_key': f"{f['format']}:{f['stage']}"})
+    return exhaustive
